@@ -538,7 +538,9 @@ class Interstitial(object):
             for c, d in itertools.product(range(self.dim), repeat=2):
                 Dp[:, :, c, d] += np.tensordot(gamma_i, biasP_i[:, :, c, d], ((0), (0))) + \
                                   np.tensordot(biasP_i[:, :, c, d], gamma_i, ((0), (0)))
-            Dp += np.tensordot(np.tensordot(self.VV, gamma_v, ((3), (0))), dg, ((2), (0)))
+            # gamma.domega.gamma evaluated in site space: a single strain component breaks the symmetry,
+            # so (domega gamma) does not lie in the span of the symmetric vector basis and must not be projected
+            Dp += np.tensordot(np.tensordot(gamma_i, domega_ij, ((0), (0))), gamma_i, ((1), (0))).transpose(0, 3, 1, 2)
 
         for a, b, c, d in itertools.product(range(self.dim), repeat=4):
             if a == c:
